@@ -12,6 +12,8 @@
 //   VALID <kind> <doc> <spki>        XML-DSig core validation done step by step with the JDK
 //                                    canonicaliser + JCA (accepts Microsoft's algorithm URIs)
 //   DSIG  <kind> <doc> <spki>        javax.xml.crypto.dsig validation (standard URIs only)
+//   REFFORM <kind> <doc>            full octets of each Reference / SignedInfo canonical form
+//   CHECK <kind> <doc> <spki> <0|1> FORMS + VALID (+ DSIG) in one request
 //   P1363 <jcaAlg> <spki> <msg> <sig> raw r||s verification (java.security.Signature)
 // Answers: "OK ..." or "ERR <message>".
 import java.io.*;
@@ -181,14 +183,12 @@ public class C19Ref {
     static Element findById(Document d, String id) {
         List<Element> all = new ArrayList<>();
         elements(d, all);
-        Element found = null;
+        // first match in document order (a duplicated Id does not change what the
+        // first bearer of that Id contains)
         for (Element e : all) {
-            if (e.hasAttribute("Id") && e.getAttribute("Id").equals(id)) {
-                if (found != null) return null; // ambiguous
-                found = e;
-            }
+            if (e.hasAttribute("Id") && e.getAttribute("Id").equals(id)) return e;
         }
-        return found;
+        return null;
     }
 
     // Canonical octets the single Reference of `sig` designates, computed the way
@@ -296,12 +296,17 @@ public class C19Ref {
     }
 
     static String validateDsig(Element sig, PublicKey key) throws Exception {
+        // KeyInfo is not signed content and the key is supplied by the caller: drop it so
+        // that javax.xml.crypto's KeyInfo unmarshaller (which is stricter than XML-DSig
+        // core validation needs) has no say in the verdict
+        for (Element ki : childrenDs(sig, "KeyInfo")) sig.removeChild(ki);
         XMLSignatureFactory fac = XMLSignatureFactory.getInstance("DOM");
         DOMValidateContext ctx = new DOMValidateContext(key, sig);
         ctx.setProperty("org.jcp.xml.dsig.secureValidation", Boolean.FALSE);
         List<Element> all = new ArrayList<>();
         elements(sig.getOwnerDocument(), all);
-        for (Element e : all) if (e.hasAttribute("Id")) ctx.setIdAttributeNS(e, null, "Id");
+        Set<String> ids = new HashSet<>();
+        for (Element e : all) if (e.hasAttribute("Id") && ids.add(e.getAttribute("Id"))) ctx.setIdAttributeNS(e, null, "Id");
         XMLSignature s;
         try { s = fac.unmarshalXMLSignature(ctx); } catch (Exception e) { return "invalid: unmarshal: " + oneLine(e); }
         try {
@@ -404,6 +409,29 @@ public class C19Ref {
             }
             return sb.toString();
         }
+        case "REFFORM": {
+            Document d = parse(dec(f[2]));
+            List<String> problems = new ArrayList<>();
+            List<Element> sigs = signatures(f[1], d, problems);
+            StringBuilder sb = new StringBuilder("OK");
+            int want = f[1].equals("manifest") ? 2 : 1;
+            for (int i = 0; i < want; i++) {
+                if (i >= sigs.size()) { sb.append(" ! !"); continue; }
+                String[] why = new String[1];
+                byte[] r = referenceForm(sigs.get(i), why);
+                sb.append(' ').append(r == null ? "!" : enc(r));
+                byte[] s = signedInfoForm(sigs.get(i), why);
+                sb.append(' ').append(s == null ? "!" : enc(s));
+            }
+            return sb.toString();
+        }
+        case "CHECK": {
+            // CHECK <kind> <doc> <spki> <dsig 0|1>  ->  OK <8 or 4 form hashes> | <valid> <detail> | <dsig> <detail>
+            String forms = handle("FORMS " + f[1] + " " + f[2]);
+            String valid = handle("VALID " + f[1] + " " + f[2] + " " + f[3]);
+            String dsig = f[4].equals("1") ? handle("DSIG " + f[1] + " " + f[2] + " " + f[3]) : "OK - -";
+            return forms + " | " + valid.substring(3) + " | " + dsig.substring(3);
+        }
         case "VALID":
         case "DSIG": {
             Document d = parse(dec(f[2]));
@@ -437,6 +465,7 @@ public class C19Ref {
         dbf = DocumentBuilderFactory.newInstance();
         dbf.setNamespaceAware(true);
         dbf.setExpandEntityReferences(true);
+        dbf.setCoalescing(true); // CDATA sections become text nodes (canonical XML treats them as text anyway)
         try { dbf.setFeature("http://apache.org/xml/features/dom/defer-node-expansion", false); } catch (Exception e) { }
         try { dbf.setFeature("http://apache.org/xml/features/nonvalidating/load-external-dtd", false); } catch (Exception e) { }
         BufferedReader in = new BufferedReader(new InputStreamReader(System.in, StandardCharsets.ISO_8859_1), 1 << 20);
